@@ -113,6 +113,8 @@ def c20_sig(line):
         return "wrong-handler"
     if "did not return" in line:
         return "launch-never-returns"
+    if "launcher_program=" in line and "launcher_program=plain" not in line:
+        return "launcher-program-variant"
     if "daemon_dies_before_done=" in line:
         return "failed-launch-not-reported"
     if "pid_matches=0" in line and 'err=""' in line:
@@ -138,7 +140,8 @@ CFG = dict(
     coq_sample={"quick": 100, "thorough": 200},
     rule=("real processes: daemon delay before Done() {0, 50, 300 ms} x launcher pause right after cmd.Start() {0, 200 ms} "
           "(hook VERIF_PAUSE_LAUNCH_AFTERSTART) x {1, 4} concurrent Launch calls with a silent daemon, a slow daemon (1 s before "
-          "Done(); thorough also 4.5 s), 4 bursts of 8 overlapping launches, all under two handler names used alternately; handlers that "
+          "Done(); thorough also 4.5 s), launcher-program variants (stdout output after Run(), lingering 0.5 / 3.5 s before exit; thorough up "
+          "to 12 s), 4 bursts of 8 overlapping launches, all under two handler names used alternately; handlers that "
           "unset the ENV_DAEMON_* markers / clear their environment before Done(); daemons that exit(3) / panic before Done() (Launch "
           "must fail with pid 0), alone and in sequences 'failing launches followed by normal ones' run from one goroutine (2 x 12 "
           "steps; thorough 10 x 12); plus the daemon handler "
@@ -164,6 +167,13 @@ CFG = dict(
                  "GO SIDE ONLY as well: a daemon that dies before Done() (outside the theorem's premise) must make Launch fail with pid 0 "
                  "and must not disturb later launches of the same process; Done() must return nil and work after the handler scrubbed its "
                  "environment; each scenario has its own marker directory, so a returned pid is compared with the marker of that launch only",
+                 "GO SIDE ONLY: the launcher PROGRAM around Run() (the harness binary plays it): printing to stdout after Run() returned "
+                 "(short / long / exactly 4 bytes / binary) and lingering 0.5 s and 3.5 s (thorough: up to 12 s) before it exits, alone and "
+                 "combined with a slow daemon, must still give nil + the daemon's own pid and a surviving daemon; timers in the library "
+                 "longer than the longest linger explored are out of reach by construction (stats: launcher_linger_ms_explored). OBSERVED "
+                 "ONLY, not judged (the property is silent about output of the launcher program): a launcher that prints to stderr after "
+                 "Run() makes Launch return that text as an error; a program that prints to stdout BEFORE Run() makes Launch return the "
+                 "first four bytes of that output as the pid with a nil error (stats: observed_only)",
                  "the forced schedule depends on the verif hook: its presence is checked in the source (glbfacts) and by timing "
                  "(a successful Launch under a 200 ms pause cannot take less than 200 ms)",
                  "GO SIDE ONLY: the daemon's standard streams are outside Model/Daemon.v. That a daemon which writes to its stderr "
